@@ -24,7 +24,7 @@ from . import common as C
 from . import sess_common as S
 
 PROP = "C20"
-PROPS_MODULES = ["AsyncFix.Props.C20"]
+PROPS_MODULES = ["AsyncFix.Props.C20", "AsyncFix.Props.C20Lock"]
 FINDINGS_MODULE = "AsyncFix.Findings.C20"
 ASSUMPTIONS = [
     "Python numbers are modelled on the 1/8 grid (exact floats; sums/differences exact; round(x,3)==0 iff x==0), "
